@@ -72,6 +72,9 @@ def execute(mod, scn):
     c = ctx()
     c.seam.reset_totals()
     boot.reset_state("score_analysis")  # every run starts from the library's state right after import
+    from . import model as _model
+
+    _model.reset_run_state()
     import random as _random
 
     _random.seed(int(scn.get("np_seed", 0)))  # the stdlib generator is scenario-determined as well
